@@ -29,7 +29,7 @@ import sys
 import tempfile
 
 from vk import chx
-from vk.report import Collector, Report, run_parallel, std_args
+from vk.report import Collector, Report, std_args
 
 PROP = "C27"
 HARNESS = os.path.join(os.path.dirname(os.path.abspath(__file__)), "h27.py")
@@ -40,9 +40,9 @@ NFILES = {"pkgconst": 2, "nested": 3, "placeholder-only": 3, "four": 4, "plain":
 # libraries added for the classes "own file of a package without constants" / deeper nesting / shadowing
 XLIBS = ["imports-only", "qualified-import", "extends-only", "deep", "shadow", "same-name", "two-packages"]
 # quick tier: the orders in which the package's own file comes after a file `within` it
-XQUICK = {"imports-only": (1, 4), "qualified-import": (5,), "extends-only": (1,)}
+XQUICK = {"imports-only": (1, 4), "extends-only": (1,)}
 # history shards (library, order index): orders that start with a `within` file
-HIST_QUICK = [("pkgconst", 1, 1), ("nested", 5, 0), ("four", 23, 1)]
+HIST_QUICK = [("pkgconst", 1, 1), ("nested", 5, 0)]
 CONCRETE_LIBS = LIBNAMES + XLIBS + ["prefixes"]
 WALK_QUICK = ["plain", "placeholder-only", "nested", "imports-only", "deep"]
 WALK_THOROUGH = LIBNAMES + XLIBS
@@ -166,15 +166,42 @@ def walk_stage(arg):
 # ---------------------------------------------------------------------------------------------------------
 # concrete assembly stages: fresh parses, parse and merge interleaved, in pristine processes
 # ---------------------------------------------------------------------------------------------------------
+_LIBS = None
+
+
 def _lib(lib):
-    """(files, names) of a library WITHOUT parsing any of its files at import (pin parse=0)."""
-    os.environ["VERIF_PIN"] = f"lib={lib},parse=0"
-    import importlib
-    import vk.chstubs
-    importlib.reload(vk.chstubs)
-    import props.h27 as h
-    importlib.reload(h)
-    return h.LIBS[lib]
+    """(files, names) of a library of props/h27.py, read from the SOURCE text: importing h27 would parse a
+    library (the parser of the process would no longer be pristine) and pull in CrossHair and CasADi."""
+    global _LIBS
+    if _LIBS is None:
+        import ast as pyast
+        for node in pyast.parse(open(HARNESS).read()).body:
+            if isinstance(node, pyast.Assign) and getattr(node.targets[0], "id", "") == "LIBS":
+                _LIBS = pyast.literal_eval(node.value)
+    return _LIBS[lib]
+
+
+_prepared = False
+
+
+def _prepare_parent():
+    """Import (not use) pymoca once in the parent, so that the forked children start in milliseconds, and warm up
+    the DFA cache of the generated ANTLR recogniser (a cold one costs seconds per process) by running lexer +
+    parser alone over the library texts.  No pymoca code besides the generated recogniser runs here: ASTListener
+    / file_to_tree / ast have not been used by any process forked afterwards."""
+    global _prepared
+    if _prepared:
+        return
+    _prepared = True
+    import antlr4
+    import pymoca.ast, pymoca.parser, pymoca.tree  # noqa: F401,E401
+    import tools.compiler  # noqa: F401
+    from pymoca.generated.ModelicaLexer import ModelicaLexer
+    from pymoca.generated.ModelicaParser import ModelicaParser
+    for lib in CONCRETE_LIBS:
+        for txt in _lib(lib)[0]:
+            ModelicaParser(antlr4.CommonTokenStream(ModelicaLexer(antlr4.InputStream(txt)))).stored_definition()
+    logging.disable(logging.CRITICAL)
 
 
 def _assemble(texts, perm, style, folder=None):
@@ -274,8 +301,23 @@ def _relabel(obs, a, b):
     return tj, p, [tuple(f) for f in fl]
 
 
-def sequence_task(lib):
+def _sequence_plan(perms, rnd, tier):
+    """(order, style) pairs of one round.  Round A2 replays the first and the last order only.  thorough: every
+    order x styles 0, 1, 2; quick: every order x styles 0, 1 (4-file libraries: alternating), style 2 (real files
+    through tools.compiler.parse_all) for every third order.  Style 3 (parse_all on the folder) once."""
+    if rnd == "A2":
+        return [(p, s) for p in (perms[0], perms[-1]) for s in (0, 1, 2)]
+    todo = []
+    for pi, p in enumerate(perms):
+        for s in (0, 1, 2):
+            if tier == "thorough" or (s == 2 and pi % 3 == 0) or (s < 2 and (len(perms) <= 6 or s == (pi + (rnd == "B")) % 2)):
+                todo.append((p, s))
+    return todo + [(perms[0], 3)]
+
+
+def sequence_task(arg):
     """One process: all orders x merge styles with literals A, then with literals B (same names), then A again."""
+    lib, tier = arg
     logging.disable(logging.CRITICAL)
     col = Collector()
     d = tempfile.mkdtemp(prefix="c27s_")
@@ -289,8 +331,7 @@ def sequence_task(lib):
             os.makedirs(folder)
             for i, txt in enumerate(texts):
                 open(os.path.join(folder, f"f{i}.mo"), "w").write(txt)
-            # round A2 replays a few orders only: first order, last order
-            todo = [(p, s) for p in (perms if rnd != "A2" else (perms[0], perms[-1])) for s in (0, 1, 2)] + [(perms[0], 3)]
+            todo = _sequence_plan(perms, rnd, tier)
             for perm, style in todo:
                 obs = _observe(texts, names, perm, style, folder)
                 col.bump("assemblies_in_sequence")
@@ -316,21 +357,16 @@ def sequence_task(lib):
 def _fresh_pool_map(fn, items, jobs):
     """Like run_parallel, but every item runs in its own forked process (parser state is per process)."""
     import multiprocessing as mp
-    # Import (not use) the heavy modules once in the parent: the forked children then start in milliseconds.
-    # Nothing is parsed here - props.h27 (which parses its library at import) is deliberately NOT imported.
-    import casadi  # noqa: F401
-    import pymoca.ast, pymoca.parser, pymoca.tree  # noqa: F401,E401
-    import tools.compiler  # noqa: F401
-    import vk.chstubs, props.hflat  # noqa: F401,E401
+    _prepare_parent()
     ctx = mp.get_context("fork")
     with ctx.Pool(max(1, min(jobs, len(items))), maxtasksperchild=1) as pool:
         return pool.map(fn, items, chunksize=1)
 
 
-def _first_use_compare(tasks, jobs, rep=None):
+def _first_use_compare(results):
     by_lib = {}
     col = Collector()
-    for lib, pi, style, perm, obs, err in _fresh_pool_map(first_use_task, tasks, jobs):
+    for lib, pi, style, perm, obs, err in results:
         if err:
             col.harness_error(f"first-use stage {lib} pi={pi}: {err}")
             continue
@@ -344,16 +380,74 @@ def _first_use_compare(tasks, jobs, rep=None):
     return col
 
 
-def concrete_stages(rep, tier, jobs):
+def _first_use_tasks(tier):
+    """thorough: every order x both styles; quick: 2- and 3-file libraries every order, 4-file libraries 7 of 24,
+    one style per order ('plain' has no within clause and 'prefixes' is covered by the sequence stage: thorough)."""
     tasks = []
     for lib in CONCRETE_LIBS:
         n = math.factorial(NFILES[lib])
+        if tier == "quick" and lib in ("plain", "prefixes"):
+            continue
         for pi in range(n):
-            for style in ((0, 1) if tier == "thorough" or n <= 6 else (pi % 2,)):
-                tasks.append((lib, pi, style))
-    rep.merge(_first_use_compare(tasks, jobs))
-    for c in _fresh_pool_map(sequence_task, CONCRETE_LIBS, jobs):
-        rep.merge(c)
+            if tier == "thorough":
+                tasks += [(lib, pi, 0), (lib, pi, 1)]
+            elif n <= 6 or pi % 4 == 1 or pi == 0:
+                tasks.append((lib, pi, pi % 2))
+    return tasks
+
+
+def _dispatch(task):
+    kind, arg = task
+    return kind, {"first": first_use_task, "seq": sequence_task, "walk": walk_stage}[kind](arg)
+
+
+def concrete_stages(tier, jobs):
+    """All concrete stages in one pool of single-use processes, the long tasks first.  -> list of Collector"""
+    walk_libs = WALK_THOROUGH if tier == "thorough" else WALK_QUICK
+    tasks = [("walk", (lib, tier)) for lib in sorted(walk_libs, key=lambda x: -NFILES[x])]
+    tasks += [("seq", (lib, tier)) for lib in sorted(CONCRETE_LIBS, key=lambda x: -NFILES[x])]
+    tasks += [("first", t) for t in _first_use_tasks(tier)]
+    first, cols = [], []
+    for kind, res in _fresh_pool_map(_dispatch, tasks, jobs):
+        if kind == "first":
+            first.append(res)
+        else:
+            cols.append(res)
+    return cols + [_first_use_compare(first)]
+
+
+def _concrete_bg(tier, jobs, conn):
+    try:
+        conn.send(concrete_stages(tier, jobs))
+    except Exception:
+        import traceback
+        col = Collector()
+        col.harness_error("concrete stages: " + traceback.format_exc()[-800:])
+        conn.send([col])
+    finally:
+        conn.close()
+
+
+def start_concrete_stages(tier, jobs):
+    """Run the concrete stages in a process of their own, next to the CrossHair shards (they fill the cores the
+    last CrossHair shards leave idle).  -> function that waits for and returns the list of Collector."""
+    import multiprocessing as mp
+    ctx = mp.get_context("fork")
+    recv, send = ctx.Pipe(duplex=False)
+    proc = ctx.Process(target=_concrete_bg, args=(tier, jobs, send))
+    proc.start()
+    send.close()
+
+    def wait():
+        try:
+            cols = recv.recv()
+        except EOFError:
+            col = Collector()
+            col.harness_error("concrete stages: the process ended without a result")
+            cols = [col]
+        proc.join()
+        return cols
+    return wait
 
 
 def _concrete_replay(func, pins, vals):
@@ -372,7 +466,8 @@ def main():
             if case.startswith("walk:"):
                 cols = [walk_stage((r["lib"], "thorough"))]
             else:
-                cols = [sequence_task(r["lib"]), _first_use_compare([(r["lib"], pi, s) for pi in range(math.factorial(NFILES[r["lib"]])) for s in (0, 1)], a.jobs)]
+                cols = [sequence_task((r["lib"], "thorough")),
+                        _first_use_compare(_fresh_pool_map(first_use_task, [(r["lib"], pi, s) for pi in range(math.factorial(NFILES[r["lib"]])) for s in (0, 1)], a.jobs))]
             hits = [(c, w) for col in cols for c, w, _ in col.violations if c == case]
             for c, w in hits[:3]:
                 print("REPRODUCED", c, w)
@@ -401,6 +496,7 @@ def main():
             for style in ((0, 1) if (a.tier == "thorough" and NFILES[lib] < 4) else (pi % 2,)):
                 spec.append(("order", f"lib={lib},pi={pi},style={style}"))
     spec.append(("reach_order", "lib=nested,pi=1,style=0"))
+    wait_concrete = start_concrete_stages(a.tier, max(2, a.jobs // 2))
     vs = chx.run(HARNESS, spec, jobs=a.jobs, cond_timeout=420 if a.tier == "quick" else 1500, path_timeout=120)
     reach = [v for v in vs if v.func.startswith("reach_")]
     vs = [v for v in vs if not v.func.startswith("reach_")]
@@ -444,9 +540,7 @@ def main():
                           f"library '{pins['lib']}': merging the files in order {perm} ({'onto an empty Tree' if pins['style'] == '0' else 'onto the first file'}) gives different flattened "
                           f"models than order (0, 1, ...) ({p.stderr[-150:] if not res else ''})",
                           {"lib": pins["lib"], "pi": int(pins["pi"]), "style": int(pins["style"]), "literals": vals})
-    concrete_stages(rep, a.tier, a.jobs)
-    walk_libs = WALK_THOROUGH if a.tier == "thorough" else WALK_QUICK
-    for col in run_parallel(walk_stage, [(lib, a.tier) for lib in walk_libs], a.jobs):
+    for col in wait_concrete():
         rep.merge(col)
     cov = rep.coverage
     cov["states"] = max(1, n["confirmed"])
